@@ -296,6 +296,266 @@ func emitRegistryBookkeeping(out *Out, r *Rng) {
 	out.Emit(Case{Op: "none", In: J{"registry": "bookkeeping"}, Impl: J{}, Prop: propOf(why), Tags: []string{"registry-bookkeeping"}, NT: true})
 }
 
+// ---------- several status types in one registry, each answered from its own issuer's revocation tree ----------
+
+// statusTypeNames draws the status types that meet in one registry: names that are different strings but related - the same
+// fragment / last segment in different vocabularies, different names in one vocabulary, a compact term next to an expanded IRI of
+// another vocabulary, names differing in case or by a suffix - plus the occasional unrelated one.
+func statusTypeNames(r *Rng) (types []verifiable.CredentialStatusType, relation string) {
+	builtin := []string{string(verifiable.SparseMerkleTreeProof), string(verifiable.Iden3ReverseSparseMerkleTreeProof),
+		string(verifiable.Iden3commRevocationStatusV1), string(verifiable.Iden3OnchainSparseMerkleTreeProof2023)}
+	letters := "abcdefghijklmnopqrstuvwxyz"
+	word := func() string {
+		b := []byte{"RSMT"[r.Intn(4)]}
+		for i, k := 0, 3+r.Intn(8); i < k; i++ {
+			b = append(b, letters[r.Intn(len(letters))])
+		}
+		return string(b) + []string{"", "Status", "Proof", "2021", "V1.0"}[r.Intn(5)]
+	}
+	name := func() string {
+		if r.Chance(55) {
+			return builtin[r.Intn(len(builtin))]
+		}
+		return word()
+	}
+	// vocabularies: the two the repository's own contexts use, synthetic third-party ones with '#' and with '/' as the last
+	// delimiter, a urn, and "" (the compact term itself)
+	host := func() string {
+		return []string{"status", "vocab", "schema", "id"}[r.Intn(4)] + "." + word()[1:] + []string{".example.org", ".example.net", ".test"}[r.Intn(3)]
+	}
+	thirdParty := func() string {
+		switch r.Intn(6) {
+		case 0:
+			return "https://" + host() + "/vocab/v" + fmt.Sprint(1+r.Intn(3)) + "#"
+		case 1:
+			return "http://" + host() + "/" + word() + ".jsonld#"
+		case 2:
+			return "https://" + host() + "/status/"
+		case 3:
+			return "urn:" + word()[1:] + ":status#"
+		case 4:
+			return "https://" + host() + "/ns#" // the shortest kind
+		default:
+			return "https://" + host() + "/" + word() + "/" + word() + "#"
+		}
+	}
+	own := []string{"https://schema.iden3.io/core/jsonld/iden3proofs.jsonld#",
+		"https://raw.githubusercontent.com/iden3/claim-schema-vocab/main/schemas/json-ld/iden3credential-v2.json-ld#"}
+	seen := map[verifiable.CredentialStatusType]bool{}
+	add := func(t string) {
+		if !seen[verifiable.CredentialStatusType(t)] {
+			seen[verifiable.CredentialStatusType(t)] = true
+			types = append(types, verifiable.CredentialStatusType(t))
+		}
+	}
+	switch r.Intn(6) {
+	case 0: // one name in several vocabularies
+		relation = "same-name-other-vocabulary"
+		nm := name()
+		vs := []string{thirdParty(), thirdParty()}
+		if r.Bool() {
+			vs = append(vs, own[r.Intn(2)])
+		}
+		if r.Bool() {
+			vs = append(vs, own[0], own[1])
+		}
+		if r.Chance(30) {
+			vs = append(vs, thirdParty())
+		}
+		for _, v := range vs {
+			add(v + nm)
+		}
+	case 1: // the compact term next to third-party IRIs that end in it. (The repository's own vocabularies are left out here: there
+		// the IRI is what the term expands to, and whether the two are one type is not for this check to say.)
+		relation = "compact-term-and-foreign-iri"
+		nm := name()
+		add(nm)
+		add(thirdParty() + nm)
+		if r.Bool() {
+			add(thirdParty() + nm)
+		}
+	case 2: // several names in one vocabulary
+		relation = "same-vocabulary-other-name"
+		v := append(own, thirdParty(), thirdParty(), "")[r.Intn(5)]
+		for i, k := 0, 2+r.Intn(3); i < k; i++ {
+			add(v + name())
+		}
+	case 3: // names that differ in case, or one extends the other
+		relation = "case-or-suffix"
+		v := append(own, thirdParty(), "", "")[r.Intn(5)]
+		nm := name()
+		add(v + nm)
+		switch r.Intn(4) {
+		case 0:
+			add(v + strings.ToLower(nm))
+		case 1:
+			add(v + strings.ToUpper(nm[:1]) + strings.ToLower(nm[1:]) + "s")
+		case 2:
+			add(v + nm + []string{"2", "V2", "2023", ".1"}[r.Intn(4)])
+		default:
+			add(v + nm[:len(nm)-1-r.Intn(len(nm)/2)])
+		}
+		if r.Bool() && v != "" {
+			add(thirdParty() + nm)
+		}
+	case 4: // a grid: some names x some vocabularies
+		relation = "names-x-vocabularies"
+		nms := []string{name(), name()}
+		vs := []string{thirdParty(), thirdParty(), own[r.Intn(2)]}
+		for _, v := range vs {
+			for _, nm := range nms {
+				if r.Chance(70) {
+					add(v + nm)
+				}
+			}
+		}
+		add(vs[0] + nms[0])
+		add(vs[1] + nms[0])
+	default: // unrelated types
+		relation = "unrelated"
+		for i, k := 0, 2+r.Intn(3); i < k; i++ {
+			if r.Bool() {
+				add(name())
+			} else {
+				add(thirdParty() + word())
+			}
+		}
+	}
+	if r.Chance(25) {
+		add(thirdParty() + word())
+	}
+	return types, relation
+}
+
+// emitRegistryRouting: a registry is given a history of Register / Delete calls over related status types, each resolver answering
+// honestly from its own issuer's real revocation tree. A status of type T is then judged against the tree of the issuer last
+// registered for exactly T: 'revoked' iff the nonce is in that tree, success iff it is absent; with no resolver registered for T
+// (never registered, or deleted) the status has no verified answer at all and validation must not succeed.
+func emitRegistryRouting(out *Out, r *Rng) {
+	ctx := context.Background()
+	types, relation := statusTypeNames(r)
+	// the nonces the issuers disagree about: a pool of 4-9, of every magnitude, some sharing their low bits
+	var pool []uint64
+	base := r.U64() >> uint(r.Intn(60))
+	for i, k := 0, 4+r.Intn(6); i < k; i++ {
+		switch r.Intn(5) {
+		case 0:
+			pool = append(pool, uint64(r.Intn(64)))
+		case 1:
+			pool = append(pool, r.U64())
+		case 2:
+			pool = append(pool, base^(1<<uint(41+r.Intn(22)))) // agrees with base on the tree's 40 levels
+		case 3:
+			pool = append(pool, base^(1<<uint(r.Intn(40))))
+		default:
+			pool = append(pool, pickAuthNonce(r))
+		}
+	}
+	pool = append(pool, base)
+	nIss := 2 + r.Intn(3)
+	issuers := make([]*Issuer, nIss)
+	revoked := make([]map[uint64]bool, nIss)
+	var revokedJ []any
+	for i := range issuers {
+		issuers[i] = NewIssuer(r, r.Intn(3))
+		revoked[i] = map[uint64]bool{}
+		var lst []string
+		share := []int{0, 30, 50, 50, 80}[r.Intn(5)]
+		for _, x := range pool {
+			if r.Chance(share) && !revoked[i][x] {
+				if err := issuers[i].revs.Add(ctx, new(big.Int).SetUint64(x), big.NewInt(0)); err == nil {
+					revoked[i][x] = true
+					lst = append(lst, fmt.Sprint(x))
+				}
+			}
+		}
+		revokedJ = append(revokedJ, lst)
+	}
+	resolverOf := func(i int) verifiable.CredentialStatusResolver {
+		is := issuers[i]
+		return statusResolver{func(st verifiable.CredentialStatus) (verifiable.RevocationStatus, error) {
+			return is.RevStatus(st.RevocationNonce), nil
+		}}
+	}
+	// the history: a random subset of the types is registered (in random order), then a few more calls - a type registered
+	// again with another issuer (the last one counts), a type deleted, a deleted or never registered type registered
+	reg := &verifiable.CredentialStatusResolverRegistry{}
+	model := map[verifiable.CredentialStatusType]int{}
+	var hist []any
+	register := func(t verifiable.CredentialStatusType, i int) {
+		reg.Register(t, resolverOf(i))
+		model[t] = i
+		hist = append(hist, J{"register": string(t), "issuer": i})
+	}
+	remove := func(t verifiable.CredentialStatusType) {
+		reg.Delete(t)
+		delete(model, t)
+		hist = append(hist, J{"delete": string(t)})
+	}
+	order := r.Perm(len(types))
+	keep := len(types)
+	if r.Chance(40) {
+		keep = 1 + r.Intn(len(types)) // some of the related types stay unregistered
+	}
+	for k, ti := range order {
+		if k < keep {
+			register(types[ti], (k+r.Intn(2))%nIss)
+		}
+	}
+	for k := r.Intn(4); k > 0; k-- {
+		t := types[r.Intn(len(types))]
+		if r.Chance(40) {
+			remove(t)
+		} else {
+			register(t, r.Intn(nIss))
+		}
+	}
+	// queries: every type of the family (registered or not) with nonces of the pool and their neighbours
+	nq := 0
+	for _, ti := range r.Perm(len(types)) {
+		t := types[ti]
+		for k := 0; k < 3 && nq < 14; k++ {
+			q := pool[r.Intn(len(pool))]
+			if k == 2 && r.Bool() {
+				q ^= 1 << uint(r.Intn(64))
+			}
+			nq++
+			_, err := guard(10*time.Second, func() (int, error) {
+				_, e := verifiable.ValidateCredentialStatus(ctx, verifiable.CredentialStatus{ID: "https://status.example/routing", Type: t, RevocationNonce: q},
+					verifiable.WithValidationStatusResolverRegistry(reg))
+				return 0, e
+			})
+			impl := classify(err)
+			var why []string
+			iss, registered := model[t]
+			member := registered && revoked[iss][q]
+			switch {
+			case !registered && err == nil:
+				why = append(why, fmt.Sprintf("no resolver is registered for status type %q (registry history %s) but a status of that type with nonce %d validates", t, jsonOf(hist), q))
+			case registered && member && impl["err"] != "revoked":
+				why = append(why, fmt.Sprintf("status type %q is registered with issuer #%d, whose revocation tree holds nonce %d (revoked per issuer: %s), but the result is %v (%v); registry history %s",
+					t, iss, q, jsonOf(revokedJ), impl, err, jsonOf(hist)))
+			case registered && !member && err != nil:
+				why = append(why, fmt.Sprintf("status type %q is registered with issuer #%d, whose revocation tree does not hold nonce %d (revoked per issuer: %s), but validation fails: %v; registry history %s",
+					t, iss, q, jsonOf(revokedJ), err, jsonOf(hist)))
+			}
+			if errClass(err) == "panic" {
+				why = append(why, err.Error())
+			}
+			out.Emit(Case{Op: "none", In: J{"registry": hist, "revoked": revokedJ, "type": string(t), "nonce": fmt.Sprint(q)}, Impl: impl, Prop: propOf(why),
+				Tags: []string{"registry-routing", "types:" + relation, fmt.Sprintf("registered:%v", registered), fmt.Sprintf("member:%v", member)}, NT: true})
+		}
+	}
+}
+
+func jsonOf(v any) string {
+	b, err := json.Marshal(v)
+	if err != nil {
+		return fmt.Sprint(v)
+	}
+	return string(b)
+}
+
 func genC09(out *Out, r *Rng, tier string, n int, shard int) {
 	ctx := context.Background()
 	faults := statusFaults()
@@ -303,6 +563,9 @@ func genC09(out *Out, r *Rng, tier string, n int, shard int) {
 	emitRegistryBookkeeping(out, r)
 	for k := 0; k < 2+n/10; k++ {
 		emitStatusOptionReuse(out, r)
+	}
+	for k := 0; k < 3+n/6; k++ {
+		emitRegistryRouting(out, r)
 	}
 	for i := 0; i < n; i++ {
 		is := NewIssuer(r, r.Intn(5))
